@@ -18,6 +18,7 @@ RULE = ('(1) whole-carrier sweeps: every float16 and every bfloat16 bit pattern 
 ASSUMPTIONS = ['float64 carrier cannot be swept (2^64): boundary alphabet only', 'IEEE overflow/underflow of exact '
                'intermediates is not a semiring violation: such triples are skipped']
 CHUNK = 1
+CASE_TIMEOUT_S = 600.0      # a case may be a sweep over 2^22 values or 512 x 63k pairs
 inf = math.inf
 
 
@@ -32,7 +33,7 @@ def gen_cases(tier, seed):
         for dt in ('float16', 'bfloat16'):
             yield ('sweep16', sem, dt)
         if tier == 'thorough':
-            for blk in range(256):
+            for blk in range(1024):
                 yield ('sweep32', sem, blk)
             for blk in range(0, 65536, 512):
                 yield ('pairs16', sem, blk)
@@ -283,7 +284,7 @@ def run_case(case):
         unary_laws(sem_of(sem, dt), sem, dt, carrier16(sem, dt), r, case)
     elif case[0] == 'sweep32':
         _, sem, blk = case
-        bits = (torch.arange(0, 1 << 24, dtype=torch.int64) + (blk << 24))
+        bits = (torch.arange(0, 1 << 22, dtype=torch.int64) + (blk << 22))
         bits = torch.where(bits >= (1 << 31), bits - (1 << 32), bits).to(torch.int32)
         x = bits.view(torch.float32)
         x = x[~torch.isnan(x)]
